@@ -13,7 +13,7 @@ mod model;
 
 pub const OP_NAMES: &[&str] = &[
     "Submit", "Recv", "Tick", "Update", "Flush", "Deliver", "Drop", "DropAll", "DeliverAll", "Hold", "Broadcast", "Mutate", "Forge",
-    "Junk", "Api", "RecvAll", "ForgeSlice", "ForgeClash", "SubmitBurst", "Churn",
+    "Junk", "Api", "RecvAll", "ForgeSlice", "ForgeClash", "SubmitBurst", "Churn", "SubmitHuge",
 ];
 pub const K_SUBMIT: u8 = 0;
 pub const K_RECV: u8 = 1;
@@ -35,6 +35,7 @@ pub const K_FORGESLICE: u8 = 16;
 pub const K_FORGECLASH: u8 = 17;
 pub const K_SUBMITBURST: u8 = 18;
 pub const K_CHURN: u8 = 19;
+pub const K_SUBMITHUGE: u8 = 20;
 
 pub const UNREL: u8 = 0;
 pub const REL_ORD: u8 = 1;
@@ -548,6 +549,9 @@ pub fn gen_cfg(family: &str, rng: &mut Rng) -> Cfg {
         Fam::Hostile => {
             let h = rng.range(1, (1 << ncl) - 1);
             cfg.set("hostile", h);
+            // a transport that re-asserts the connection status before every receive (renet_steam's client transport calls
+            // set_connected on every update): documented to do nothing on a disconnected client
+            cfg.set("steamlike", *rng.pick(&[0u64, 0, 1]));
         }
         Fam::Multi => {
             cfg.set("idmode", *rng.pick(&[0u64, 0, 1]));
